@@ -18,11 +18,11 @@ func c16(c *Check) {
 	c.Trusted = []string{"ibc-go core channel keeper RecvPacket/WriteAcknowledgement", "cosmos-sdk CacheContext semantics", "go/ssa"}
 	m := Macros{
 		"CC":    "cosmos-sdk/types.(Context).CacheContext($1)",
-		"DATA":  "cell<cosmos-sdk/codec.(*ProtoCodec).UnmarshalJSON(g:transfer/types.ModuleCdc, 04-channel/types.(Packet).GetData($2), _)>",
+		"DATA":  "cell<cosmos-sdk/codec.(*ProtoCodec).UnmarshalJSON(g:transfer/types.ModuleCdc, $2.Data, _)>",
 		"AMT":   "cosmos-sdk/types.NewIntFromString({DATA}.Amount)",
 		"RCV":   "cosmos-sdk/types.AccAddressFromBech32({DATA}.Receiver)#0",
-		"DENOM": "aggregate/types.IBCDenom(04-channel/types.(Packet).GetDestPort($2), 04-channel/types.(Packet).GetDestChannel($2), {DATA}.Denom)",
-		"MSG":   "aggregate/types.NewMsgConvertCoin(cosmos-sdk/types.NewCoin({DENOM}#0, {AMT}#0), go-ethereum/common.BytesToAddress(cosmos-sdk/types.(AccAddress).Bytes({RCV})), {RCV})",
+		"DENOM": "aggregate/types.IBCDenom($2.DestinationPort, $2.DestinationChannel, {DATA}.Denom)",
+		"MSG":   "aggregate/types.NewMsgConvertCoin(cosmos-sdk/types.NewCoin({DENOM}#0, {AMT}#0), go-ethereum/common.BytesToAddress({RCV}), {RCV})",
 		"CONV":  "aggregate/keeper.(Keeper).ConvertCoin($0, cosmos-sdk/types.WrapSDKContext({CC}#0), {MSG})",
 	}
 	hook := c.F("x/aggregate/keeper.Keeper.OnRecvPacket")
